@@ -153,7 +153,7 @@ Theorem C14_send_failure_accepted_by_oracle : forall f E ch qid h base_cb base_r
   single_failure f -> env_all_ok E -> heap_ok h -> fresh_qid ch qid -> env_modelled E ch ->
   exists r h', send_nolock f E ch qid h = Ok (r, h') /\
     (r_query r = None ->
-     judge_tok (mkTok qid 1 (r_cbs r) (Some (r_status r)) base_cb base_ret true false false) = []).
+     judge_tok (mkTok qid 1 (r_cbs r) (Some (r_status r)) base_cb base_ret true false false true) = []).
 Proof. exact send_failure_judged. Qed.
 Print Assumptions C14_send_failure_accepted_by_oracle.
 
